@@ -11,7 +11,7 @@ git -C "$WT" checkout -q -- .
 git -C "$WT" apply "$PATCH"
 mkdir -p "$H"
 rsync -a --delete --exclude target /verif/harness/ "$H/"
-sed -i "s#/repo/duckscript_sdk#$WT/duckscript_sdk#; s#/repo/duckscript\"#$WT/duckscript\"#" "$H/Cargo.toml"
+sed -i "s#\.\./repo-link#$WT#g" "$H/Cargo.toml"
 (cd "$H" && CARGO_NET_OFFLINE=true cargo build --release --offline 2>&1 | grep -E '^error' -A8 | head -20)
 (cd /verif && "$H/target/release/harness" check "$PID" "$TIER" "${VERIF_SEED:-1}" /verif/lean/.lake/build/bin/driver "/verif/work/mut-$PID.json" >/dev/null 2>&1)
 python3 - "$PID" <<'PY'
